@@ -4,8 +4,12 @@ import (
 	"context"
 	"fmt"
 	"strings"
+	"sync"
+	"time"
 
+	"github.com/avos-io/goat/gen/goatorepo"
 	"google.golang.org/grpc"
+	"google.golang.org/protobuf/proto"
 
 	"goatverif/bed"
 	"goatverif/core"
@@ -41,7 +45,7 @@ func nonTagHeaders(r *wire.Rpc) int {
 
 // checkWire runs the protocol automata over one link's delivered envelopes.
 // returned: tag -> logical time the stream handler returned; closeSeq: when the bed was closed.
-func checkWire(log []*wire.Rec, returned map[string]uint64, closeSeq uint64) (viol []protoViolation, stats map[string]int64) {
+func checkWire(log []*wire.Rec, returned, unaryReturned map[string]uint64, closeSeq uint64) (viol []protoViolation, stats map[string]int64) {
 	stats = map[string]int64{}
 	type dirState struct {
 		n                       int
@@ -120,6 +124,9 @@ func checkWire(log []*wire.Rec, returned map[string]uint64, closeSeq uint64) (vi
 			case d.reset:
 				add("client-envelope-after-reset", "id %d: C->S %s after the client's reset", id, wire.Kind(r))
 			case isReset:
+				if d.n == 0 {
+					add("client-reset-before-stream-open", "id %d: the client's first envelope for the id is a reset (the stream was never opened)", id)
+				}
 				d.reset = true
 				d.resets++
 				st.interesting = true
@@ -187,6 +194,10 @@ func checkWire(log []*wire.Rec, returned map[string]uint64, closeSeq uint64) (vi
 			stats["projections_with_reset_or_error"]++
 		}
 		if st.unary {
+			// a unary request that was handled while the connection was alive has its one response
+			if ret, ok := unaryReturned[st.tag]; ok && st.tag != "" && (closeSeq == 0 || ret < closeSeq) && st.c2s.n == 1 && st.s2c.n == 0 {
+				add("unary-request-without-response", "id %d (%s): the unary handler returned, the connection was alive, but no response envelope was emitted", id, st.tag)
+			}
 			continue
 		}
 		ret, ok := returned[st.tag]
@@ -233,6 +244,8 @@ func c06List(tier string, seed int64) []c06Case {
 		add("C11", len(c11List("quick")), 192)
 	}
 	add("directed-send-across-cancel", 1000, tierN(tier, 24, 240))
+	add("directed-unary-deadline-in-handler", 1000, tierN(tier, 12, 120))
+	add("directed-cancel-during-open-write", 1000, tierN(tier, 12, 120))
 	return out
 }
 
@@ -313,6 +326,109 @@ func c06Directed(tier string, seed int64, idx int) *core.Result {
 	return res
 }
 
+// c06UnaryDeadline: a unary request whose (1 ms) deadline expires while its handler runs must still
+// be answered with exactly one response envelope.
+func c06UnaryDeadline(tier string, seed int64, idx int) *core.Result {
+	res := &core.Result{Verdict: core.Held}
+	h := bed.NewHooks()
+	h.Install()
+	b := bed.New(bed.Opts{Cap: 2})
+	tag := fmt.Sprintf("udl%d", idx)
+	b.Impl.SetUnary(tag, func(ctx context.Context, t string, req []byte) ([]byte, error) {
+		<-ctx.Done() // the deadline conveyed by the request expires here
+		if idx%2 == 0 {
+			return nil, ctx.Err()
+		}
+		return req, nil
+	})
+	body, _ := proto.Marshal(&svc.BV{Value: []byte("x")})
+	id := uint64(1)<<40 + uint64(idx)
+	e := &wire.Rpc{Id: id, Header: &goatorepo.RequestHeader{Method: svc.MUnary, Source: "c0", Destination: "srv",
+		Headers: []*goatorepo.KeyValue{{Key: svc.TagKey, Value: tag}, {Key: "grpc-timeout", Value: []string{"1m", "500u", "2m"}[idx%3]}}}, Body: &goatorepo.Body{Data: body}}
+	if err := b.Links[0].A.Write(context.Background(), e); err != nil {
+		res.Verdict, res.Note = core.Inconclusive, "raw write failed"
+	}
+	// a real (1 ms) timer is pending here, so "every goroutine blocked" does not mean final: wait in
+	// real time for the handler to return, then for its reply to settle
+	for i := 0; i < 5000 && len(b.Impl.UnaryReturnedAt()) == 0; i++ {
+		time.Sleep(time.Millisecond)
+	}
+	if len(b.Impl.UnaryReturnedAt()) == 0 {
+		res.Verdict, res.Note = core.Inconclusive, "handler deadline did not fire within 5 s"
+	}
+	settle(tier, func() bool {
+		for _, e := range b.Links[0].Tap.Log() {
+			if e.Dir == 1 && e.Rpc.GetId() == id {
+				return true
+			}
+		}
+		return false
+	})
+	res.Stat("unary_deadline_in_handler", 1)
+	finish(tier, b, h, res)
+	return res
+}
+
+// c06CancelDuringOpen: the caller's context ends while the stream's opening envelope is still
+// inside the transport's Write; whatever happens then, a reset must never be the first (or only)
+// thing the client emits for the id.
+func c06CancelDuringOpen(tier string, seed int64, idx int) *core.Result {
+	res := &core.Result{Verdict: core.Held}
+	h := bed.NewHooks()
+	h.Install()
+	b := bed.New(bed.Opts{Cap: 2})
+	b.Links[0].Eager = idx%2 == 0
+	parked := make(chan struct{})
+	release := make(chan struct{})
+	var once sync.Once
+	b.Links[0].A.SetOnWriteEntry(func(r *wire.Rpc) {
+		if r.GetBody() == nil && r.GetTrailer() == nil && r.GetReset_() == nil {
+			fired := false
+			once.Do(func() { fired = true; close(parked) })
+			if fired {
+				<-release
+			}
+		}
+	})
+	m := svc.NewManualCtx(context.Background())
+	done := make(chan struct{})
+	go func() {
+		defer close(done)
+		kind := []string{"bidi", "client", "server"}[idx%3]
+		s, err := svc.Open(m, b.Conns[0], kind, fmt.Sprintf("cdo%d", idx), []byte("q"))
+		if err == nil && s != nil {
+			s.Recv()
+		}
+	}()
+	if st, _ := settle(tier, func() bool {
+		select {
+		case <-parked:
+			return true
+		default:
+			return false
+		}
+	}); st == "ok" {
+		if idx%4 < 2 {
+			m.Cancel()
+		} else {
+			m.Fire()
+		}
+		quiet(tier)
+		res.Stat("cancel_during_open_write", 1)
+	}
+	close(release)
+	settle(tier, func() bool {
+		select {
+		case <-done:
+			return true
+		default:
+			return false
+		}
+	})
+	finish(tier, b, h, res)
+	return res
+}
+
 func c06Run(tier string, seed int64, idx int) *core.Result {
 	c := c06List(tier, seed)[idx]
 	bed.ResetRecent()
@@ -320,11 +436,19 @@ func c06Run(tier string, seed int64, idx int) *core.Result {
 	switch c.Source {
 	case "directed-send-across-cancel":
 		sub = c06Directed(tier, seed, c.Index)
+	case "directed-unary-deadline-in-handler":
+		sub = c06UnaryDeadline(tier, seed, c.Index)
+	case "directed-cancel-during-open-write":
+		sub = c06CancelDuringOpen(tier, seed, c.Index)
 	case "C01":
 		sub = c01Run(tier, seed, c.Index)
 	case "C02":
 		sub = c02Run(tier, seed, c.Index)
 	case "C03":
+		if f := c03Gen(tier, seed, c.Index).Family; f == "loss-before-trailer" || f == "loss-after-trailer" || f == "foreign" {
+			// these families break the connection or use a foreign peer: not "connection alive" histories
+			return &core.Result{Verdict: core.Held, Sig: fmt.Sprintf("%+v", c), Sample: map[string]any{"case": c, "skipped": "faulted C03 family " + f}}
+		}
 		sub = c03Run(tier, seed, c.Index)
 	case "C07":
 		sub = c07Run(tier, seed, c.Index)
@@ -337,13 +461,13 @@ func c06Run(tier string, seed int64, idx int) *core.Result {
 	}
 	// each check reports only its own property: what the workload's own oracle found is not C06's business
 	for k, v := range sub.Stats {
-		if k == "send_parked_across_cancel" {
+		if k == "send_parked_across_cancel" || k == "unary_deadline_in_handler" || k == "cancel_during_open_write" {
 			res.Stat(k, v)
 		}
 	}
 	for _, b := range bed.Recent {
 		for li, l := range b.Links {
-			viol, st := checkWire(l.Tap.Log(), b.Impl.ReturnedAt(), b.CloseSeq)
+			viol, st := checkWire(l.Tap.Log(), b.Impl.ReturnedAt(), b.Impl.UnaryReturnedAt(), b.CloseSeq)
 			for k, v := range st {
 				res.Stat(k, v)
 			}
@@ -377,11 +501,11 @@ func init() {
 	core.Register(&core.Prop{
 		ID:    "C06",
 		Level: "exploration",
-		Rule:  "trace checking: a fixed-seed sample of the C01, C02, C03 (matrix and race families), C07 and C11 case lists (quick ~850 cases, thorough ~11 500) is re-run and every client link's tap log is projected per (id, direction) and fed to the protocol automata (stream open / body* / trailer+status / resets; unary exactly one request and one response; constant and swapped header fields; metadata only on the first response; server emits only for received ids; server reset only after a body and never before the trailer; end-of-history rule: handler returned, no client reset, connection alive => trailer). evaluations = workload cases; non-trivial = the case's wire history contains a reset or a non-OK trailer; distinct = distinct (workload, index).",
+		Rule:  "trace checking: a fixed-seed sample of the C01, C02, C03 (matrix and race families), C07 and C11 case lists (quick ~850 cases, thorough ~11 500) is re-run and every client link's tap log is projected per (id, direction) and fed to the protocol automata (stream open / body* / trailer+status / resets; unary exactly one request and one response; constant and swapped header fields; metadata only on the first response; server emits only for received ids; server reset only after a body and never before the trailer; end-of-history rules: stream handler returned, no client reset, connection alive => trailer; unary handler returned, connection alive => one response; a client reset is never the first envelope of an id), plus directed families: a send parked across a cancel, a unary deadline expiring inside the handler, a cancel while the opening envelope is inside the transport Write. evaluations = workload cases; non-trivial = the case's wire history contains a reset or a non-OK trailer; distinct = distinct (workload, index).",
 		Plan:  func(tier string, seed int64) int { return len(c06List(tier, seed)) },
 		Run:   c06Run,
 		RequiredStats: func(string) []string {
-			return []string{"projections", "projections_with_reset_or_error", "handler_returns_checked", "envelopes", "send_parked_across_cancel"}
+			return []string{"projections", "projections_with_reset_or_error", "handler_returns_checked", "envelopes", "send_parked_across_cancel", "unary_deadline_in_handler", "cancel_during_open_write"}
 		},
 		Assumptions: []string{"the automata are transcribed from README.md and the property statement", "only client-side links are checked (one client = one id space)"},
 	})
